@@ -619,13 +619,53 @@ class Check(common.Check):
                   f'run 3 0', 'fin', 'cont a', f'run {BIG} 0', 'dump']
         return lines
 
+    def gen_slow_tempo(self, G):
+        """a very slow TempoClock, two tasks a tiny beat distance apart, and a notification just before a
+        deadline: nothing may be awakened before its due time (exact comparison in virtual time)"""
+        rate = G.choice([Fr(1, 512), Fr(1, 2048), Fr(1, 128)])
+        eps = G.choice([Fr(1, 16384), Fr(1, 32768), Fr(1, 65536)])
+        b = G.choice([Fr(1, 256), Fr(1, 128), Fr(3, 256)]) * G.choice([1, 1, 2])
+        lines = ['task 0 F ' + G.choice(['d', f'r:{fr(eps)} | d']), 'task 1 R d', 'task 2 F d', 'task 3 F d',
+                 f'new 0 {fr(rate)}', f'op m t0 s {fr(b)} 0', f'op {G.choice("mo")} t0 s {fr(b + eps)} 1',
+                 f'op m t0 s {fr(b + 3 * eps)} 2']
+        due = b / rate
+        if G.random() < 0.5:
+            # stop just short of the first deadline and notify the sleeping thread with an unrelated later task
+            lines.append(f'run {fr(due - eps / rate / 2)} 0')
+            lines.append(f'op {G.choice("mo")} t0 s {fr(b + 1)} 3')
+            lines.append('wake t0 n')
+        lines.append(f'run {fr(due + 8 * eps / rate)} {fr(G.choice([Fr(0), Fr(0), eps / rate / 4]))}')
+        lines += ['dump', f'run {BIG} 0', f'run {int(2 / rate) + 8} 0', 'dump']
+        return lines
+
+    def gen_readd_storm(self, G):
+        """40-100 re-schedulings of still-pending task objects (the queue replaces the entry), then everything
+        runs: order by (time, call) and never early must survive the queue's internal clean-ups"""
+        k = G.choice(['s', 's', 't0'])
+        nt = G.randint(34, 48)
+        lines = [f'task {t} {G.choice("FFR")} ' + G.choice(['d', 'd', 'r:1/8 | d']) for t in range(nt)]
+        lines.append('new 0 ' + fr(G.choice([Fr(1), Fr(2)])))
+        for t in range(nt):
+            lines.append(f'op m {k} s {fr(Fr(G.randint(8, 80), 8))} {t}')
+        for _ in range(G.randint(40, 100)):
+            lines.append(f'op {G.choice("mmo")} {k} s {fr(Fr(G.randint(8, 80), 8))} {G.randrange(nt)}')
+            if G.random() < 0.04:
+                lines.append('dump')
+        if G.random() < 0.5:
+            lines.append(f'run {fr(Fr(G.randint(8, 40), 8))} {fr(G.choice([Fr(0), Fr(1, 64)]))}')
+            for _ in range(G.randint(10, 40)):
+                lines.append(f'op m {k} q {fr(Fr(G.randint(1, 40), 8))} {G.randrange(nt)}')
+        lines += ['dump', f'run {BIG} 0', 'dump']
+        return lines
+
     def gen(self, rng, n):
         out = []
         for _ in range(n):
             r = rng.random()
             out.append(self.gen_tempo_batch(rng) if r < 0.08 else self.gen_midstep(rng) if r < 0.18
                        else self.gen_cmdperiod(rng) if r < 0.24 else self.gen_etempo(rng) if r < 0.30
-                       else self.gen_same_callable(rng) if r < 0.36
+                       else self.gen_same_callable(rng) if r < 0.36 else self.gen_slow_tempo(rng) if r < 0.41
+                       else self.gen_readd_storm(rng) if r < 0.44
                        else self.gen_one(rng))
         return out
 
